@@ -173,6 +173,14 @@ theorem C16_witness_binding :
 theorem C16_witness_frames :
     (run witnessState (faultyGuard ++ [.procEdgeEnd])).frames.length = (run witnessState [.procEdgeEnd]).frames.length + 1 := by decide
 
+/-- what the theorems above quantify over is what the grammar can emit: every callback of every production reachable from
+    a label entry point (Expression, SyncExpr, ExprList, ExpRate) is an expression-level callback of the model, except the
+    synchronisation label's own proc_sync (table regenerated from src/parser.y on every run) -/
+theorem C16_label_callbacks_are_expression_level :
+    (UtapModel.C16.labelCallbacks.filter (fun c => match UtapModel.C16.callOf c with
+      | some cl => !cl.isExprCall
+      | none => true)) = ["proc_sync"] := by decide +kernel
+
 /-- the exception set computed from the generated grammar table and the model's own frame effects: productions
     reachable from a label entry point whose frame push (mid-rule action) and pop (final action) are separated by a
     nonterminal.  A change of parser.y or of the model that alters this list changes the finding keys. -/
